@@ -752,4 +752,92 @@ theorem moved_le_granted {m : InstMsg} {s0 : State} (h : instantiate m = .ok s0)
   have h2 := drawn_le_granted h ops p
   omega
 
+/-! ## The hypotheses are satisfiable: a concrete history (evaluated by the kernel)
+
+`alice` holds 100, `carol` 7.  At height 10 alice grants bob 50 until height 20; bob moves 30 of alice's
+tokens to carol; then the classic race: alice reduces by 25 while bob tries to spend 20 more. -/
+namespace Ex
+
+def im : InstMsg where
+  name := "Token"
+  symbol := "TKN"
+  decimals := 6
+  initial := [(⟨true, "alice"⟩, 100), (⟨true, "carol"⟩, 7)]
+  mint := none
+
+def blk : Block := ⟨10, 1000⟩
+def late : Block := ⟨20, 2000⟩
+def alice : AddrArg := ⟨true, "alice"⟩
+def bob : AddrArg := ⟨true, "bob"⟩
+def carol : AddrArg := ⟨true, "carol"⟩
+def until20 : Expiration := .atHeight 20
+
+def s0 : State where
+  supply := 107
+  mint := none
+  balances := [("alice", 100), ("carol", 7)]
+  allow := []
+  allowSp := []
+  version := ⟨CONTRACT_NAME, 2, 0, 0⟩
+
+/-- after `IncreaseAllowance{bob, 50, AtHeight 20}` by alice -/
+def s1 : State :=
+  { s0 with allow := [(("alice", "bob"), ⟨50, until20⟩)], allowSp := [(("bob", "alice"), ⟨50, until20⟩)] }
+
+/-- after `TransferFrom{alice, carol, 30}` by bob -/
+def s2 : State :=
+  { s0 with balances := [("alice", 70), ("carol", 37)],
+            allow := [(("alice", "bob"), ⟨20, until20⟩)], allowSp := [(("bob", "alice"), ⟨20, until20⟩)] }
+
+example : instantiate im = .ok s0 := rfl
+example : execute s0 blk "alice" (.increaseAllowance bob 50 (some until20)) = .ok (s1, []) := rfl
+example : execute s1 blk "bob" (.transferFrom alice carol 30) = .ok (s2, []) := rfl
+/-- the hypotheses of `debit_authorised` hold on this step, in its allowance branch … -/
+example : bal s2 "alice" < bal s1 "alice" := by decide
+example : drawOf (.transferFrom alice carol 30) = some (alice, 30) := rfl
+/-- … and in its holder branch -/
+example : ∃ s' out, execute s2 blk "carol" (.send bob 37 "hook") = .ok (s', out) ∧
+    bal s' "carol" < bal s2 "carol" ∧ out = [⟨"bob", "carol", 37, "hook"⟩] := ⟨_, _, rfl, by decide, rfl⟩
+/-- `SendFrom` names the spender (bob), not the owner (alice), as initiator -/
+example : ∃ s', execute s1 blk "bob" (.sendFrom alice carol 30 "hook") = .ok (s', [⟨"carol", "bob", 30, "hook"⟩]) :=
+  ⟨_, rfl⟩
+/-- beyond the allowance, at / after the expiry, or without any allowance: rejected -/
+example : (execute s2 blk "bob" (.transferFrom alice carol 21)).isOk = false := rfl
+example : (execute s2 late "bob" (.transferFrom alice carol 1)).isOk = false := rfl
+example : (execute s2 blk "carol" (.burnFrom alice 1)).isOk = false := rfl
+example : (execute s2 blk "bob" (.burnFrom alice 20)).isOk = true := rfl
+/-- self-allowance and past expiry: rejected -/
+example : (execute s0 blk "alice" (.increaseAllowance alice 5 none)).isOk = false := rfl
+example : (execute s0 late "alice" (.increaseAllowance bob 5 (some until20))).isOk = false := rfl
+example : (execute s2 late "alice" (.decreaseAllowance bob 5 (some until20))).isOk = false := rfl
+
+/-- The reduce-vs-spend race, order 1: alice's `DecreaseAllowance 25` lands first (saturates: entry removed),
+bob's `TransferFrom 20` then fails.  Order 2: bob's draw lands first, the decrease then removes the rest.
+In both orders `drawn + remaining ≤ granted = 50`. -/
+def race1 : List (Block × Addr × Msg) :=
+  [(blk, "alice", .increaseAllowance bob 50 (some until20)), (blk, "bob", .transferFrom alice carol 30),
+   (blk, "alice", .decreaseAllowance bob 25 none), (blk, "bob", .transferFrom alice carol 20)]
+def race2 : List (Block × Addr × Msg) :=
+  [(blk, "alice", .increaseAllowance bob 50 (some until20)), (blk, "bob", .transferFrom alice carol 30),
+   (blk, "bob", .transferFrom alice carol 20), (blk, "alice", .decreaseAllowance bob 25 none)]
+
+example : tot (grun (ginit s0) race1).granted ("alice", "bob") = 50 ∧
+    tot (grun (ginit s0) race1).drawn ("alice", "bob") = 30 ∧
+    tot (grun (ginit s0) race1).moved ("alice", "bob") = 30 ∧
+    bal (run s0 race1) "alice" = 70 ∧ (run s0 race1).allow.get? ("alice", "bob") = none := by decide
+example : tot (grun (ginit s0) race2).granted ("alice", "bob") = 50 ∧
+    tot (grun (ginit s0) race2).drawn ("alice", "bob") = 50 ∧
+    tot (grun (ginit s0) race2).moved ("alice", "bob") = 50 ∧
+    bal (run s0 race2) "alice" = 50 ∧ (run s0 race2).allow.get? ("alice", "bob") = none := by decide
+
+end Ex
+
+/-- The exact guard of `past_expiry_rejected_decrease` matters: when the decrease removes the entry
+(`old.amount ≤ amt`) the code ignores the expiry argument, so an already expired one is accepted
+(closed instance, evaluated by the kernel). -/
+theorem decrease_ignores_expiry_on_removal :
+    (execute Ex.s2 Ex.late "alice" (.decreaseAllowance Ex.bob 20 (some Ex.until20))).isOk = true ∧
+    (step Ex.s2 Ex.late "alice" (.decreaseAllowance Ex.bob 20 (some Ex.until20))).allow.get? ("alice", "bob") = none := by
+  decide
+
 end CwPlus.Props.C02
